@@ -197,22 +197,43 @@ def _clears_all_decoders(ctx: Ctx, f: Func, depth: int = 2) -> List[ast.AST]:
     return out
 
 
+def _is_packed_start(srcs) -> bool:
+    """the start of the packed data: _packed_start(), or afterheader combined with packpos."""
+    attrs = {x.attr for s_ in srcs for x in ast.walk(s_) if isinstance(x, ast.Attribute)}
+    return "_packed_start" in attrs or {"afterheader", "packpos"} <= attrs
+
+
+def _session_effects(ctx: Ctx, f: Func):
+    """(seeks, workers): top-level nodes of f at which the session handle is re-positioned to the start of the packed data / the worker is
+    replaced, directly or inside a private helper of the same class (helpers are inlined two levels deep)."""
+    seeks, workers = [], []
+    for g, n, via in q.deep_nodes(ctx, f, depth=2):
+        at = via if via is not None else n
+        if isinstance(n, ast.Call) and attr_tail(n) == "seek" and "fp" in norm(n.func.value):
+            srcs = [s_ for a in n.args for s_ in q.sources_of(g, a, depth=2)]
+            if _is_packed_start(srcs):
+                seeks.append(at)
+        if isinstance(n, ast.Assign) and any(isinstance(t, ast.Attribute) and t.attr == "worker" for t in n.targets) and isinstance(n.value, ast.Call) and attr_tail(n.value) == "Worker":
+            a1 = n.value.args[1] if len(n.value.args) > 1 else None
+            if a1 is not None and _is_packed_start(q.sources_of(g, a1, depth=2)):
+                workers.append(at)
+    return seeks, workers
+
+
 def r12_3(ctx: Ctx) -> None:
     # reset(): seek, new worker, clear all
     rs = shared.szf(ctx, "reset")
     clears = _clears_all_decoders(ctx, rs)
-    seeks = [c for c in q.calls(rs) if attr_tail(c) == "seek" and any(isinstance(n, ast.Attribute) and n.attr in ("afterheader", "_packed_start")
-                                                                    for a in c.args for n in ast.walk(a))]
-    workers = [n for n in walk(rs.node) if isinstance(n, ast.Assign) and any(isinstance(t, ast.Attribute) and t.attr == "worker" for t in n.targets)
-               and isinstance(n.value, ast.Call) and attr_tail(n.value) == "Worker"]
+    seeks, workers = _session_effects(ctx, rs)
     ctx.check(bool(clears) and bool(seeks) and bool(workers), "R12.3", rs, rs.node, "reset(): re-seek, new worker, all decoder caches cleared",
               "reset() does not re-seek, replace the worker and clear every folder's cached decoder", construct="reset() body")
-    # clearing must not be conditional on anything but "there are folders"/mode
-    for cl in clears:
+    # neither may depend on anything but the mode / presence of folders
+    for cl in clears + seeks + workers:
         facts = q.facts_at(rs, cl)
         odd = [c for c, pol in facts if not (_mentions(c, "mode") or _mentions(c, "main_streams") or _mentions(c, "numfolders") or _mentions(c, "unpackinfo"))]
-        ctx.check(not odd, "R12.3", rs, cl, "reset(): clearing not under an unrelated condition",
-                  f"reset() clears decoder caches only under {', '.join(norm(o) for o in odd)}")
+        ctx.check(not odd, "R12.3", rs, cl, "reset(): not under an unrelated condition",
+                  f"reset() re-seeks / replaces the worker / clears decoder caches only under {', '.join(norm(o) for o in odd)}: e.g. after a parallel extraction (own handles per "
+                  "folder) the session's file position has not moved, yet the folder decoders are at end of stream")
     # every decode entry point that does not require reset(): testzip
     for name in ("testzip",):
         f = shared.szf(ctx, name)
@@ -220,8 +241,7 @@ def r12_3(ctx: Ctx) -> None:
         ex = [c for c in q.calls(f) if "py7zr:Worker.extract" in shared.targets_of(ctx, f, c)]
         ctx.floor("R12.3", len(ex), 1, f"Worker.extract call in {name}")
         clears = _clears_all_decoders(ctx, f)
-        seeks = [c for c in q.calls(f) if attr_tail(c) == "seek"]
-        workers = [n for n in walk(f.node) if isinstance(n, ast.Assign) and any(isinstance(t, ast.Attribute) and t.attr == "worker" for t in n.targets)]
+        seeks, workers = _session_effects(ctx, f)
         for e in ex:
             en = q.node_for(f, e)
             c_ok = any(cfg.dominates(q.node_for(f, cl), en) for cl in clears)
@@ -233,6 +253,20 @@ def r12_3(ctx: Ctx) -> None:
                       f"{name}() starts a full decode pass with a fresh worker and file position but keeps each folder's cached decoder: "
                       "after an earlier extract/testzip the stale decoder is at end-of-stream and yields nothing (wrong verdict or endless loop)",
                       construct=f"{name} decoder cache")
+    # test() leaves a worker/position behind that later calls use: it must be the start of the packed data as well
+    t = shared.szf(ctx, "test")
+    seeks, workers = _session_effects(ctx, t)
+    ctx.check(bool(seeks) and bool(workers), "R12.3", t, t.node, "test(): leaves the handle and a fresh worker at the start of the packed data",
+              "test() leaves the session with a handle position / worker that does not start at the packed data (afterheader + packpos): a following extract without reset reads from the wrong offset",
+              construct="test() seek/worker")
+    # the per-folder extractor positions the handle it is given on every path (not only when it opened it itself)
+    es = ctx.prog.func("py7zr", "Worker.extract_single")
+    ecfg = cfg_of(es.node)
+    sk = [c for c in q.calls(es) if attr_tail(c) == "seek"]
+    work = [c for c in q.calls(es) if attr_tail(c) == "_extract_single"]
+    ok = bool(sk) and bool(work) and all(not ecfg.reaches(ecfg.entry, q.node_for(es, w), avoid=[q.node_for(es, s_) for s_ in sk]) for w in work)
+    ctx.check(ok, "R12.3", es, sk[0] if sk else es.node, "extract_single positions the handle on every path before decoding",
+              "extract_single decodes from a handle it did not position on some path (e.g. only a handle it opened itself is seeked): a session handle left elsewhere by test() is read from the wrong offset")
 
 
 def _mentions(e: ast.AST, word: str) -> bool:
